@@ -3,9 +3,11 @@
 From Adapt Require Import Num.Qaux Num.SignedZero Dialect.SepPairModel.
 Local Open Scope Q_scope.
 
-(* lra does not know the division by the constant 2 *)
+(* lra does not know the division by the constant 2.  Lqa.lra is the Q-only procedure: the generic `lra` of Psatz may close a
+   goal through the reals and drag their axioms into Print Assumptions (it did for dim_nf_sound). *)
+From Coq Require Lqa.
 Ltac qdiv2 := unfold Qdiv in *; change (/ 2) with (1 # 2) in *.
-Ltac qlra := qdiv2; lra.
+Ltac qlra := qdiv2; Lqa.lra.
 
 (* ------------------------------------------------------------------ holds / holdsb *)
 Lemma holds_dimb_spec extra st gt g cs ct ws wt :
@@ -392,3 +394,174 @@ Proof.
   unfold coincideb, coincide, sg_is0. rewrite !andb_true_iff, !Qeqb_spec.
   destruct (xgt sp), (xst sp), (ygt sp), (yst sp); cbn; intuition (try discriminate).
 Qed.
+
+(* ================================================================================================================
+   flip_equiv for the remaining public mutator overloads of SepMatrix (SepPairModel.v, second part) *)
+
+(* addFixedRelativeSep(id1,id2,dx,dy): the stored record does not depend on what was there *)
+Lemma fixed_sp dx dy sp : addSep CENTRE DOWN EQ dy (addSep CENTRE RIGHT EQ dx sp) = mkSP CENTRE CENTRE EQ EQ dx dy.
+Proof. destruct sp; reflexivity. Qed.
+
+Theorem flip_equiv_fixed a b dx dy m :
+  option_map m_pairs (m_addFixedRelativeSep true a b dx dy m) =
+  option_map m_pairs (m_addFixedRelativeSep true b a (sg_neg dx) (sg_neg dy) m).
+Proof.
+  unfold m_addFixedRelativeSep, m_getSepPair. rewrite (Nat.eqb_sym b a).
+  destruct (Nat.eqb a b) eqn:Eab; [reflexivity|]. apply Nat.eqb_neq in Eab.
+  destruct (order_cases a b Eab) as [[-> ->]|[-> ->]];
+    destruct (m_find _ _ m); cbn [en_lo en_hi en_sp en_flip option_map]; f_equal;
+    rewrite ?fixed_sp, ?sg_neg_invol; apply m_pairs_put_flag.
+Qed.
+
+(* setCardinalOP(a,b,d) and setCardinalOP(b,a,opposite d): identical stored pairs *)
+Lemma card_sepdir_flip c : card_sepdir (cardFlip c) = negateSepDir (card_sepdir c).
+Proof. destruct c; reflexivity. Qed.
+
+Theorem setCardinalOP_flip a b c m :
+  option_map m_pairs (m_setCardinalOP true a b c m) = option_map m_pairs (m_setCardinalOP true b a (cardFlip c) m).
+Proof. unfold m_setCardinalOP. rewrite card_sepdir_flip. apply flip_equiv. Qed.
+
+(* Requests that are symmetric in the two nodes (alignments, the present offset) are stored with a different SIGN BIT OF
+   A ZERO gap when the ids are given in the other order (hAlign(b,a) stores -0.0, hAlign(a,b) stores +0.0): the records
+   are not identical but mean the same for every placement. *)
+Definition sp_equiv (s1 s2 : SepPair) : Prop := forall extra p, holds extra p s1 <-> holds extra p s2.
+Definition pairs_equiv (l1 l2 : list (nat * nat * SepPair)) : Prop :=
+  Forall2 (fun x y => fst x = fst y /\ sp_equiv (snd x) (snd y)) l1 l2.
+Definition opt_rel {A} (R : A -> A -> Prop) (x y : option A) : Prop :=
+  match x, y with Some u, Some v => R u v | None, None => True | _, _ => False end.
+
+Lemma sp_equiv_refl s : sp_equiv s s.
+Proof. intros extra p. tauto. Qed.
+Lemma pairs_equiv_refl l : pairs_equiv l l.
+Proof. induction l; constructor; auto. split; [reflexivity | apply sp_equiv_refl]. Qed.
+
+Lemma pairs_equiv_put lo hi s1 s2 f1 f2 m :
+  sp_equiv s1 s2 -> pairs_equiv (m_pairs (m_put (mkEn lo hi s1 f1) m)) (m_pairs (m_put (mkEn lo hi s2 f2) m)).
+Proof.
+  intro H. unfold m_pairs. induction m as [|e r IH]; cbn [m_put map en_lo en_hi].
+  - constructor; [split; [reflexivity | exact H] | constructor].
+  - destruct (Nat.eqb (en_lo e) lo && Nat.eqb (en_hi e) hi); cbn [map].
+    + constructor; [split; [reflexivity | exact H] | apply pairs_equiv_refl].
+    + constructor; [split; [reflexivity | apply sp_equiv_refl] | exact IH].
+Qed.
+
+(* sep_equivb decides (soundly) this relation: the checker the twin comparison of checks/c18.py falls back on *)
+Lemma sep_equivb_sp_equiv s1 s2 : (forall extra, sep_equivb extra s1 extra s2 = true) -> sp_equiv s1 s2.
+Proof. intros H extra p. apply sep_equivb_sound. apply H. Qed.
+
+Lemma holds_dim_eq_centre extra g cs ct ws wt : holds_dim extra EQ CENTRE g cs ct ws wt <-> ct - cs == sg_val g.
+Proof. destruct g as [[|] m]; unfold holds_dim, sg_val; cbn; split; intro; lra. Qed.
+
+Lemma sp_equiv_y gx sx ax g g' : sg_val g == sg_val g' -> sp_equiv (mkSP gx CENTRE sx EQ ax g) (mkSP gx CENTRE sx EQ ax g').
+Proof. intros E extra p. unfold holds. cbn [xst yst xgt ygt xgap ygap]. rewrite !holds_dim_eq_centre, E. tauto. Qed.
+Lemma sp_equiv_x gy sy ay g g' : sg_val g == sg_val g' -> sp_equiv (mkSP CENTRE gy EQ sy g ay) (mkSP CENTRE gy EQ sy g' ay).
+Proof. intros E extra p. unfold holds. cbn [xst yst xgt ygt xgap ygap]. rewrite !holds_dim_eq_centre, E. tauto. Qed.
+Lemma sp_equiv_fixed dx dx' dy dy' :
+  sg_val dx == sg_val dx' -> sg_val dy == sg_val dy' ->
+  sp_equiv (mkSP CENTRE CENTRE EQ EQ dx dy) (mkSP CENTRE CENTRE EQ EQ dx' dy').
+Proof. intros Ex Ey extra p. unfold holds. cbn [xst yst xgt ygt xgap ygap]. rewrite !holds_dim_eq_centre, Ex, Ey. tauto. Qed.
+
+(* hAlign / vAlign / alignByEquatedCoord in either id order: equivalent stored pairs, whatever the matrix held before *)
+Theorem align_flip_equiv eq_y a b m :
+  opt_rel pairs_equiv (option_map m_pairs (m_alignByEquatedCoord true a b eq_y m))
+                      (option_map m_pairs (m_alignByEquatedCoord true b a eq_y m)).
+Proof.
+  unfold m_alignByEquatedCoord, m_hAlign, m_vAlign, m_addSep, m_getSepPair. rewrite (Nat.eqb_sym b a).
+  destruct eq_y; (destruct (Nat.eqb a b) eqn:Eab; [exact I|]); apply Nat.eqb_neq in Eab;
+    (destruct (order_cases a b Eab) as [[-> ->]|[-> ->]]);
+    destruct (m_find _ _ m) as [e|]; cbn [en_lo en_hi en_sp en_flip option_map opt_rel addSep];
+    apply pairs_equiv_put; (apply sp_equiv_y || apply sp_equiv_x); reflexivity.
+Qed.
+
+(* the position-based overload addFixedRelativeSep(id1,id2): (a,b) and (b,a) store equivalent records ... *)
+Lemma diff_flip x y : sg_val (sg_neg (sg_of_Q (x - y))) == sg_val (sg_of_Q (y - x)).
+Proof. rewrite sg_val_neg, !sg_of_Q_val. lra. Qed.
+
+Theorem fixed_pos_flip_equiv a b pos m :
+  opt_rel pairs_equiv (option_map m_pairs (m_addFixedRelativeSepPos true a b pos m))
+                      (option_map m_pairs (m_addFixedRelativeSepPos true b a pos m)).
+Proof.
+  unfold m_addFixedRelativeSepPos, m_addFixedRelativeSep, m_getSepPair. rewrite (Nat.eqb_sym b a).
+  destruct (Nat.eqb a b) eqn:Eab; [exact I|]. apply Nat.eqb_neq in Eab.
+  destruct (order_cases a b Eab) as [[-> ->]|[-> ->]];
+    destruct (m_find _ _ m) as [e|]; cbn [en_lo en_hi en_sp en_flip option_map opt_rel];
+    rewrite !fixed_sp; apply pairs_equiv_put; apply sp_equiv_fixed;
+    (apply diff_flip || (symmetry; apply diff_flip)).
+Qed.
+
+(* ... and the record it stores holds for the present placement ("sit at their present exact separation") *)
+Lemma m_find_put lo hi sp f m : m_find lo hi (m_put (mkEn lo hi sp f) m) = Some (mkEn lo hi sp f).
+Proof.
+  induction m as [|e r IH]; cbn [m_put m_find en_lo en_hi].
+  - now rewrite !Nat.eqb_refl.
+  - destruct (Nat.eqb (en_lo e) lo && Nat.eqb (en_hi e) hi) eqn:E; cbn [m_find en_lo en_hi].
+    + now rewrite !Nat.eqb_refl.
+    + rewrite E. exact IH.
+Qed.
+
+Theorem fixed_pos_frozen a b pos size extra m m' :
+  m_addFixedRelativeSepPos true a b pos m = Some m' ->
+  exists e, m_find (Nat.min a b) (Nat.max a b) m' = Some e /\
+            holds extra (place_of pos size (Nat.min a b) (Nat.max a b)) (en_sp e).
+Proof.
+  unfold m_addFixedRelativeSepPos, m_addFixedRelativeSep, m_getSepPair.
+  destruct (Nat.eqb a b) eqn:Eab; [discriminate|]. apply Nat.eqb_neq in Eab.
+  destruct (order_cases a b Eab) as [[E1 E2]|[E1 E2]]; rewrite ?E1, ?E2.
+  - apply Nat.ltb_lt in E1. rewrite Nat.min_r, Nat.max_l by lia.
+    destruct (m_find b a m) as [e|]; cbn [en_lo en_hi en_sp en_flip]; rewrite fixed_sp; intros [= <-];
+      (eexists; split; [apply m_find_put|]); unfold holds, place_of;
+      cbn [en_sp xst yst xgt ygt xgap ygap p_sx p_sy p_tx p_ty p_sw p_sh p_tw p_th];
+      rewrite !holds_dim_eq_centre, !sg_val_neg, !sg_of_Q_val; split; lra.
+  - apply Nat.ltb_lt in E2. rewrite Nat.min_l, Nat.max_r by lia.
+    destruct (m_find a b m) as [e|]; cbn [en_lo en_hi en_sp en_flip]; rewrite fixed_sp; intros [= <-];
+      (eexists; split; [apply m_find_put|]); unfold holds, place_of;
+      cbn [en_sp xst yst xgt ygt xgap ygap p_sx p_sy p_tx p_ty p_sw p_sh p_tw p_th];
+      rewrite !holds_dim_eq_centre, !sg_of_Q_val; split; lra.
+Qed.
+
+(* What "measuring the offset in storage orientation and handing it to the 4-argument overload" (seeded change C18-4) would
+   store: the point reflection.  Stated so that the defect class stays recognisable: it violates both theorems above. *)
+Definition m_addFixedRelativeSepPos_storage_orientation (id1 id2 : nat) (pos : centres) (m : smatrix) : option smatrix :=
+  let lo := Nat.min id1 id2 in let hi := Nat.max id1 id2 in
+  m_addFixedRelativeSep true id1 id2 (sg_of_Q (fst (pos hi) - fst (pos lo))) (sg_of_Q (snd (pos hi) - snd (pos lo))) m.
+Theorem fixed_pos_storage_orientation_refuted :
+  exists a b pos m', m_addFixedRelativeSepPos_storage_orientation a b pos [] = Some m' /\
+    forall e, m_find (Nat.min a b) (Nat.max a b) m' = Some e ->
+              ~ holds 0 (place_of pos (fun _ => (1, 1)) (Nat.min a b) (Nat.max a b)) (en_sp e).
+Proof.
+  exists 1%nat, 0%nat, (fun n => match n with O => (0, 0) | _ => (70, 40) end). eexists. split; [reflexivity|].
+  intros e He. vm_compute in He. injection He as <-. intro H. apply holdsb_spec in H. vm_compute in H. discriminate H.
+Qed.
+
+(* free is symmetric in its two ids *)
+Theorem free_sym a b m : m_free a b m = m_free b a m.
+Proof. unfold m_free. rewrite (Nat.eqb_sym b a), (Nat.min_comm b a), (Nat.max_comm b a). reflexivity. Qed.
+
+(* transforming the closed subset of ALL nodes is the plain transform; and a record is touched by the open-subset variant
+   as soon as one of its nodes is in the set *)
+Theorem transformClosedSubset_all tf ids m :
+  (forall e, In e m -> mem_id (en_lo e) ids = true /\ mem_id (en_hi e) ids = true) ->
+  m_transformClosedSubset tf ids m = m_transform tf m.
+Proof.
+  intro H. unfold m_transformClosedSubset, m_transform. apply map_ext_in. intros e He.
+  destruct (H e He) as [-> ->]. reflexivity.
+Qed.
+
+(* ------------------------------------------------------------------ non-vacuity of the new statements *)
+Definition ex_pos : centres := fun n => match n with O => (3, -2) | S O => (-4, -2) | _ => (0, 7) end.
+Example fixed_pos_nonvacuous :
+  option_map m_pairs (m_addFixedRelativeSepPos true 1 0 ex_pos []) =
+    Some [(0, 1, mkSP CENTRE CENTRE EQ EQ (mkSg true 7) (mkSg true 0))]%nat /\
+  option_map m_pairs (m_addFixedRelativeSepPos true 0 1 ex_pos []) =
+    Some [(0, 1, mkSP CENTRE CENTRE EQ EQ (mkSg true 7) (mkSg false 0))]%nat /\
+  holds 0 (place_of ex_pos (fun _ => (1, 1)) 0 1) (mkSP CENTRE CENTRE EQ EQ (mkSg true 7) (mkSg true 0)) /\
+  ~ holds 0 (place_of ex_pos (fun _ => (1, 1)) 0 1) (mkSP CENTRE CENTRE EQ EQ (mkSg false 7) (mkSg false 0)).
+Proof.
+  repeat split; try (vm_compute; reflexivity); try (apply holdsb_spec; vm_compute; reflexivity).
+  intro H. apply holdsb_spec in H. vm_compute in H. discriminate H.
+Qed.
+Example align_flip_nonvacuous :
+  option_map m_pairs (m_hAlign true 2 0 stale_m0) <> option_map m_pairs (m_hAlign true 0 2 stale_m0) /\
+  option_map m_pairs (m_setCardinalOP true 2 0 CNORTH stale_m0) = option_map m_pairs (m_setCardinalOP true 0 2 CSOUTH stale_m0) /\
+  m_free 1 0 stale_m0 = [] /\ stale_m0 <> [].
+Proof. repeat split; try (vm_compute; reflexivity); vm_compute; discriminate. Qed.
